@@ -146,8 +146,9 @@ Proof. exact keyset_public_err. Qed.
    public view of the ephemeral key (given or freshly generated by any
    generator): none of its private parameters; other header members untouched *)
 Theorem c12_epk_public :
-  forall gen rk eph hdr e hdr',
-    prepare_ephemeral_key gen rk eph hdr = Ok (e, hdr') ->
+  forall gen rk eph generated hdr e hdr',
+    prepare_ephemeral_key gen rk eph generated hdr = Ok (e, hdr') ->
+    e = ephemeral_in_use gen rk eph generated /\
     exists v, dget hdr' s_epk = Some (PDict v) /\
       v = pub_view (kreg e) (k_dict e) /\
       (forall m, In m (spec_private (k_kind e)) -> ~ In m (dkeys v)) /\
@@ -158,7 +159,7 @@ Proof. exact epk_public_spec. Qed.
 Theorem c12_ni_epk :
   forall gen rk e1 e2 hdr,
     k_kind e1 = k_kind e2 -> pub_view (kreg e1) (k_dict e1) = pub_view (kreg e2) (k_dict e2) ->
-    match prepare_ephemeral_key gen rk (Some e1) hdr, prepare_ephemeral_key gen rk (Some e2) hdr with
+    match prepare_ephemeral_key gen rk (Some e1) false hdr, prepare_ephemeral_key gen rk (Some e2) false hdr with
     | Ok (_, h1), Ok (_, h2) => h1 = h2
     | Err a, Err b => a = b
     | _, _ => False
@@ -281,7 +282,7 @@ Proof. vm_compute. split; [reflexivity | split; [reflexivity | discriminate]]. Q
 Example c12_epk_instance :
   prepare_ephemeral_key (fun k => k)
     {| k_kind := KEC; k_raw_private := false; k_dict := [] |}
-    (Some {| k_kind := KEC; k_raw_private := true; k_dict := ex_ec |})
+    (Some {| k_kind := KEC; k_raw_private := true; k_dict := ex_ec |}) false
     [(asc "alg", PStr (asc "ECDH-ES"))] =
   Ok ({| k_kind := KEC; k_raw_private := true; k_dict := ex_ec |},
       [(asc "alg", PStr (asc "ECDH-ES"));
